@@ -42,6 +42,28 @@ def uploadEntries {K : Type} (key : Bytes → K) (tree : List (String × Bytes))
       | none => if skipMissing then uploadEntries key tree r skipMissing else none
       | some c => (uploadEntries key tree r skipMissing).map ({ name := f, hash := key c, size := c.length } :: ·)
 
+/-- the two calls `uploadBundleFiles` makes on the source for one file, failures included:
+    `has f = none` — the existence check of `skipFile` failed; `get f = none` — the read failed
+    transiently; `get f = some none` — the file is not there -/
+structure SrcCalls where
+  has : String → Option Bool
+  get : String → Option (Option Bytes)
+
+/-- `uploadBundleFiles` call by call. `skipFile`: a failed existence check decides nothing ("the
+    code will decide later": the file is taken to exist); with skip-missing a file reported absent
+    is skipped without being read. Then the read: with skip-missing a failed or empty-handed read
+    skips the file, without it the upload fails. -/
+def uploadEntriesF {K : Type} (key : Bytes → K) (src : SrcCalls) (files : List String) (skipMissing : Bool) :
+    Option (List (Entry K)) :=
+  match files with
+  | [] => some []
+  | f :: r =>
+    if isGenerated f then uploadEntriesF key src r skipMissing
+    else if skipMissing && !((src.has f).getD true) then uploadEntriesF key src r skipMissing
+    else match src.get f with
+      | some (some c) => (uploadEntriesF key src r skipMissing).map ({ name := f, hash := key c, size := c.length } :: ·)
+      | _ => if skipMissing then uploadEntriesF key src r skipMissing else none
+
 /-- index files: `perFile` entries each, the remainder last -/
 def batches {α : Type} (n : Nat) (l : List α) : List (List α) :=
   if h : l = [] ∨ n = 0 then [] else l.take n :: batches n (l.drop n)
